@@ -193,15 +193,36 @@ func leafOps(cr *model.Crit) string {
 	return strings.Join(ks, "+")
 }
 
-// numeric kinds that represent small integers exactly
+// goKinds lists the same integer as every Go numeric kind that represents it exactly.
 func goKinds(n int64) []any {
-	out := []any{n, float64(n), float32(n), int(n), int32(n), int16(n)}
-	if n >= -128 && n <= 127 {
+	out := []any{n}
+	if float64(int64(float64(n))) == float64(n) && int64(float64(n)) == n {
+		out = append(out, float64(n))
+	}
+	if int64(float32(n)) == n && float64(float32(n)) == float64(n) {
+		out = append(out, float32(n))
+	}
+	if int64(int(n)) == n {
+		out = append(out, int(n))
+	}
+	if int64(int32(n)) == n {
+		out = append(out, int32(n))
+	}
+	if int64(int16(n)) == n {
+		out = append(out, int16(n))
+	}
+	if int64(int8(n)) == n {
 		out = append(out, int8(n))
 	}
 	if n >= 0 {
-		out = append(out, uint(n), uint64(n), uint32(n), uint16(n))
-		if n <= 255 {
+		out = append(out, uint(n), uint64(n))
+		if int64(uint32(n)) == n {
+			out = append(out, uint32(n))
+		}
+		if int64(uint16(n)) == n {
+			out = append(out, uint16(n))
+		}
+		if int64(uint8(n)) == n {
 			out = append(out, uint8(n))
 		}
 	}
@@ -282,8 +303,19 @@ func RunCriteriaDB(c *core.Ctx) {
 		}
 	}
 	// literal-type invariance
-	for k := 0; k < 6 && !s.failed; k++ {
+	// documents holding a few large numbers, as int64 / uint64 / float64
+	bigs := []int64{1 << 40, 1<<30 + 128, 33554436}
+	var bigDocs []map[string]any
+	for i, b := range bigs {
+		bigDocs = append(bigDocs, map[string]any{"_id": r.UUID(), "x": b, "a": uint64(b), "arr": []any{float64(b)}},
+			map[string]any{"_id": r.UUID(), "x": float64(b), "a": b + int64(i), "arr": []any{b}})
+	}
+	s.Insert("k", bigDocs, false)
+	for k := 0; k < 9 && !s.failed; k++ {
 		n := int64(r.Range(-3, 12))
+		if k >= 6 {
+			n = bigs[k-6]
+		}
 		ops := []model.OpKind{model.OpEq, model.OpNeq, model.OpGt, model.OpGtEq, model.OpLt, model.OpLtEq}
 		op := gen.Pick(r, ops)
 		field := gen.Pick(r, []string{"x", "a"})
